@@ -793,6 +793,123 @@ fn c18_after_seek(ctx: &Ctx, rep: &mut Report, idx: u64, fmt: Fmt, rng: &mut Rng
     }
 }
 
+/// one reused record set over a 1 MiB buffer; stretches of tiny records (more than 65 536 per batch)
+/// alternate with stretches of 4 KB records (a hundred or two per batch). After two cycles every batch
+/// size and record size has been seen: the rest must not allocate.
+fn c18_alternating_batches(ctx: &Ctx, rep: &mut Report, idx: u64, fmt: Fmt) {
+    let cap = 1usize << 20;
+    let mut input = vec![];
+    for cycle in 0..4 {
+        let target = input.len() + cap + cap / 4;
+        let mut i = 0usize;
+        while input.len() < target {
+            match fmt {
+                Fmt::Fasta => input.extend_from_slice(format!(">{}\nA\n", i % 10).as_bytes()),
+                Fmt::Fastq => input.extend_from_slice(format!("@{}\nA\n+\nI\n", i % 10).as_bytes()),
+            }
+            i += 1;
+        }
+        let target = input.len() + cap + cap / 4;
+        while input.len() < target {
+            let l = 4000 + (cycle * 7) % 9;
+            match fmt {
+                Fmt::Fasta => {
+                    input.extend_from_slice(b">L\n");
+                    input.extend((0..l).map(|k| b"ACGT"[k % 4]));
+                    input.push(b'\n');
+                }
+                Fmt::Fastq => {
+                    input.extend_from_slice(b"@L\n");
+                    input.extend((0..l).map(|k| b"ACGT"[k % 4]));
+                    input.extend_from_slice(b"\n+\n");
+                    input.extend((0..l).map(|_| b'I'));
+                    input.push(b'\n');
+                }
+            }
+        }
+    }
+    let warm_bytes = input.len() / 2;
+    rep.evaluations += 1;
+    let mut j = ctx.replay_json(idx);
+    j["format"] = json!(fmt.name());
+    j["capacity"] = json!(cap);
+    j["mode"] = json!("reused record set, batches of >65536 tiny records alternating with batches of ~150 long records");
+    let res = guarded(|| -> (u64, u64, usize, bool) {
+        let mut batches = 0usize;
+        let mut largest = 0usize;
+        let (a, r, cap_changed);
+        match fmt {
+            Fmt::Fasta => {
+                let mut rdr = fasta::Reader::with_capacity(&input[..], cap);
+                let mut set = fasta::RecordSet::default();
+                let mut consumed = 0usize;
+                while consumed < warm_bytes {
+                    match rdr.read_record_set(&mut set) {
+                        Some(Ok(())) => {
+                            largest = largest.max(set.len());
+                            consumed += (&set).into_iter().map(|x| x.head().len() + x.seq().len() + 3).sum::<usize>();
+                        }
+                        _ => break,
+                    }
+                }
+                let cap0 = rdr.verif_capacity();
+                crate::alloc::arm();
+                while let Some(Ok(())) = rdr.read_record_set(&mut set) {
+                    batches += 1;
+                    std::hint::black_box(set.len());
+                }
+                let (x, y, _) = crate::alloc::disarm();
+                a = x;
+                r = y;
+                cap_changed = rdr.verif_capacity() != cap0;
+            }
+            Fmt::Fastq => {
+                let mut rdr = fastq::Reader::with_capacity(&input[..], cap);
+                let mut set = fastq::RecordSet::default();
+                let mut consumed = 0usize;
+                while consumed < warm_bytes {
+                    match rdr.read_record_set(&mut set) {
+                        Some(Ok(())) => {
+                            largest = largest.max(set.len());
+                            consumed += (&set).into_iter().map(|x| x.head().len() + 2 * x.seq().len() + 6).sum::<usize>();
+                        }
+                        _ => break,
+                    }
+                }
+                let cap0 = rdr.verif_capacity();
+                crate::alloc::arm();
+                while let Some(Ok(())) = rdr.read_record_set(&mut set) {
+                    batches += 1;
+                    std::hint::black_box(set.len());
+                }
+                let (x, y, _) = crate::alloc::disarm();
+                a = x;
+                r = y;
+                cap_changed = rdr.verif_capacity() != cap0;
+            }
+        }
+        let _ = largest;
+        (a, r, batches, cap_changed)
+    });
+    match res {
+        Err(c) => crate::m_basic::caught_violation(rep, &c, "reading alternating batches", j),
+        Ok((a, r, batches, cap_changed)) => {
+            rep.map("mode", &format!("{}:record_set:alternating-huge-and-small-batches", fmt.name()));
+            rep.add("measured_batches_of_alternating_sizes", batches as u64);
+            if batches > 0 && a + r > 0 {
+                rep.violation(
+                    &format!("{}-set-allocates", fmt.name()),
+                    format!("{} allocations and {} reallocations while reading {} batches after two full cycles of huge and small batches", a, r, batches),
+                    j.clone(),
+                );
+            }
+            if cap_changed {
+                rep.violation(&format!("{}-capacity-changed", fmt.name()), "the buffer capacity changed in the steady state".into(), j);
+            }
+        }
+    }
+}
+
 pub fn c18(ctx: &Ctx, rep: &mut Report) {
     let mut idx = ctx.only.unwrap_or(0);
     loop {
@@ -802,6 +919,14 @@ pub fn c18(ctx: &Ctx, rep: &mut Report) {
         ctx.begin(idx);
         let mut rng = Rng::derive(&[ctx.seed, ctx.shard, idx, 18]);
         let fmt = if idx % 2 == 0 { Fmt::Fasta } else { Fmt::Fastq };
+        if !ctx.miri && (idx == 10 || idx == 11) {
+            c18_alternating_batches(ctx, rep, idx, fmt);
+            if ctx.only.is_some() {
+                break;
+            }
+            idx += 1;
+            continue;
+        }
         if !ctx.miri && (idx % 16 == 8 || idx % 16 == 9) {
             c18_after_seek(ctx, rep, idx, fmt, &mut rng);
             if ctx.only.is_some() {
